@@ -34,7 +34,12 @@ pub fn scripts() -> Vec<(&'static str, Vec<J>)> {
     let del = ev("Delete", json!({"table": t, "cond": {"bin": "eq", "l": {"col": cps("K")}, "r": {"lit": {"i": 2}}}}));
     let flush = ev("Flush", json!({}));
     let into = ev("IntoInner", json!({}));
+    // a table stream larger than any buffer the library may put in front of the container (12 000 bytes)
+    let bulk_rows: Vec<J> = (0..1500).map(|k| json!([{"i": k}, {"i": 7 * k}])).collect();
+    let btab = ev("CreateTable", json!({"table": cps("B"), "cols": [col("K", "i32", 0, false, true), col("N", "i32", 0, true, false)]}));
+    let bulk = ev("Insert", json!({"table": cps("B"), "rows": bulk_rows}));
     vec![
+        ("bulk", vec![create.clone(), btab, bulk, flush.clone(), into.clone()]),
         ("create", vec![create.clone(), flush.clone()]),
         ("insert", vec![create.clone(), ctab.clone(), ins.clone(), flush.clone()]),
         ("update", vec![create.clone(), ctab.clone(), ins.clone(), flush.clone(), upd.clone(), flush.clone()]),
